@@ -1456,6 +1456,36 @@ def f_fill_directional(a, b, layout):
     return o
 
 
+def f_fill_directional_2d(a, b, layout):
+    """fillna_forward / fillna_backward along axis 1 enter a 2-D block of dtype a from a block of dtype b: the edge the values
+    enter through has a missing cell (row q), the middle column is complete, the far edge is complete (layout 0) or has its
+    missing cell in another row (layout 1)"""
+    if a not in NA_ABLE:
+        raise Skip()
+    import static_frame as sf
+    x = base_array(b)
+    # the complete middle column holds the variant-0 values: no tuple is ever carried (a tuple cell makes every directional
+    # fill raise ValueError on the unchanged tree - recorded in DESIGN 5.2, same family as F30)
+    y, ym = base_array(a, na=True), base_array(a)
+    y2 = base_array(a, variant=1) if layout == 0 else base_array(a, na=True, variant=1)
+    xv, yv, ymv, y2v = cells(x), cells(y), cells(ym), cells(y2)
+    o = Obs()
+    for forward in (True, False):
+        blk = np.empty((3, 3), dtype=y.dtype)
+        for j, colv in enumerate((y, ym, y2) if forward else (y2, ym, y)):
+            blk[:, j] = colv
+        blocks, columns = ([x, blk], ('X', 'Y', 'Ym', 'Y2')) if forward else ([blk, x], ('Y2', 'Ym', 'Y', 'X'))
+        f = sf.Frame(sf.TypeBlocks.from_blocks(blocks), index=IDX, columns=columns, own_data=True)
+        r = f.fillna_forward(axis=1) if forward else f.fillna_backward(axis=1)
+        w = 'fillna_forward(axis=1) into a 2-D block' if forward else 'fillna_backward(axis=1) into a 2-D block'
+        o.col([yv[0], xv[1], yv[2]], colarr(r, 'Y'), w + ' col Y')
+        o.col(ymv, colarr(r, 'Ym'), w + ' col Ym')
+        o.col(y2v if layout == 0 else [ymv[0], y2v[1], y2v[2]], colarr(r, 'Y2'), w + ' col Y2')
+        o.col(xv, colarr(r, 'X'), w + ' col X')
+        o.keep(x.dtype, r['X'].dtype, w + ' X')
+    return o
+
+
 def mk_frame3(name, layout):
     """columns A, A2, A3 (dtype `name`, three different value orders), K (int64), S (<U6).
     layout 1: A, A2, A3 form ONE 2-D block of width 3; layout 0: every column its own 1-D block."""
@@ -1573,7 +1603,7 @@ B2_QUICK = ('bool', 'int64', 'float64', '<U1', '<U6', 'S4', 'M8[D]', 'object')
 
 ARRAY_SITES = {
     'f_assign_frame': f_assign_frame, 'f_assign_block_slice': f_assign_block_slice,
-    'f_bloc_assign': f_bloc_assign, 'f_bloc_select': f_bloc_select, 'f_fill_directional': f_fill_directional,
+    'f_bloc_assign': f_bloc_assign, 'f_bloc_select': f_bloc_select, 'f_fill_directional': f_fill_directional, 'f_fill_directional_2d': f_fill_directional_2d,
     's_concat': s_concat, 'f_concat_rows': f_concat_rows, 'f_concat_cols': f_concat_cols, 'f_concat_union': f_concat_union,
     's_assign_array': s_assign_array, 'f_assign_array': f_assign_array, 'f_assign_2d': f_assign_2d,
     's_fillna_series': s_fillna_series, 'f_fillna_frame': f_fillna_frame, 's_overlay': s_overlay, 'f_overlay': f_overlay,
